@@ -30,10 +30,11 @@ def run(ctx):
     ctx.tally(res, cases_path=cases)
     ctx.exhaustive = True
     ctx.rule = ("every `R % sep` result of the cfg bound: flat with 0..4 tail elements over the atom and separator sets, "
-                "and nested (elements that are list results) with 0..2/3 tail elements, each in the R and NR variant; "
+                "nested (elements that are list results) with 0..2/3 tail elements and three-level ones, each in the R and NR variant, "
+                "every helper called repeatedly and interleaved on one structure; "
                 "every arithmetic expression tree with <= MaxOperands operands over Nums x {+,-,*} with every placement "
                 "of one unary minus, printed with minimal parentheses; distinct = nesting shape x variant / "
                 "operator-parenthesis skeleton of the expression")
     ctx.assumptions += ["fn is symbolic (builds the term \"(x op y)\"), atoms are strings / tpl/ast identifiers",
                         "BinaryExprNR is exercised on flat lists only (nested elements are not expressions)",
-                        "the calculator is the README grammar without '/' and FLOAT, plus a parenthesised operand rule"]
+                        "the calculator is the README grammar without '/' and FLOAT, plus a parenthesised operand rule and a third % level of C-like comparisons < >"]
